@@ -62,8 +62,18 @@ def log(*ev):
             fh.write(json.dumps(rec) + "\n")
 
 
+def _probe(ident, slow):
+    """a constructor that takes a while (probing a backend, reading a file) before it sets anything"""
+    if slow:
+        log("Constructing", ident)
+        time.sleep(slow)
+
+
 class _Instrumented(object):
     FLAVOUR = None
+
+    def __repr__(self):
+        return "<%s ident=%r beat=%r>" % (type(self).__name__, self.ident, self.beat)
 
     def _setup(self, ident, fail_after, fail_kind, beat, idle=False, churn=False):
         self.ident = ident
@@ -165,11 +175,13 @@ def _mk_pool(flavour, flavour_mod):
     class SPool(PlainPool):
         FLAVOUR = flavour
 
-        def __init__(self, ident=0, fail_after=None, fail_kind=None, beat=0.02, idle=False, churn=False):
+        def __init__(self, ident=0, fail_after=None, fail_kind=None, beat=0.02, idle=False, churn=False, slow=0):
+            _probe(ident, slow)
             self._demand = 0.0
             _Instrumented._setup(self, ident, fail_after, fail_kind, beat, idle, churn)
 
         _end = _Instrumented._end
+        __repr__ = _Instrumented.__repr__
         run = _make_run(flavour)
     SPool.__name__ = SPool.__qualname__ = "Pool" + flavour.capitalize()
     return SPool
@@ -180,12 +192,14 @@ def _mk_deco(flavour, flavour_mod):
     class SDeco(PoolDecorator):
         FLAVOUR = flavour
 
-        def __init__(self, target, ident=0, fail_after=None, fail_kind=None, beat=0.02, idle=False, churn=False):
+        def __init__(self, target, ident=0, fail_after=None, fail_kind=None, beat=0.02, idle=False, churn=False, slow=0):
+            _probe(ident, slow)
             super().__init__(target)
             _Instrumented._setup(self, ident, fail_after, fail_kind, beat, idle, churn)
             log("Target", ident, getattr(target, "ident", None))
 
         _end = _Instrumented._end
+        __repr__ = _Instrumented.__repr__
         run = _make_run(flavour)
     SDeco.__name__ = SDeco.__qualname__ = "Deco" + flavour.capitalize()
     return SDeco
@@ -196,12 +210,14 @@ def _mk_ctrl(flavour, flavour_mod):
     class SCtrl(Controller):
         FLAVOUR = flavour
 
-        def __init__(self, target, ident=0, fail_after=None, fail_kind=None, beat=0.02, idle=False, churn=False):
+        def __init__(self, target, ident=0, fail_after=None, fail_kind=None, beat=0.02, idle=False, churn=False, slow=0):
+            _probe(ident, slow)
             super().__init__(target)
             _Instrumented._setup(self, ident, fail_after, fail_kind, beat, idle, churn)
             log("Target", ident, getattr(target, "ident", None))
 
         _end = _Instrumented._end
+        __repr__ = _Instrumented.__repr__
         run = _make_run(flavour)
     SCtrl.__name__ = SCtrl.__qualname__ = "Ctrl" + flavour.capitalize()
     return SCtrl
